@@ -64,7 +64,10 @@ def _gen_case(rng: random.Random, k: int) -> Dict[str, Any]:
 
         # ---- stations: one to five stations, one to four rows each, rows interleaved
         n_st = rng.randint(1, 5)
-        st_ids = [f"s{i}" for i in range(n_st)]
+        # in a third of the cases the ids are plain numbers, the same numbers for vehicles, stations and bases
+        # (ids are unique per kind only; a fleets file lists them per kind)
+        plain_ids = rng.random() < 0.33
+        st_ids = [(str(i + 1) if plain_ids else f"s{i}") for i in range(n_st)]
         st_cell = {s: rng.choice(cells) for s in st_ids}
         rows: List[Dict[str, str]] = []
         few = rng.sample(charger_ids, min(len(charger_ids), rng.randint(1, 3)))
@@ -84,7 +87,7 @@ def _gen_case(rng: random.Random, k: int) -> Dict[str, Any]:
         n_b = rng.randint(1, 3)
         base_rows = []
         for i in range(n_b):
-            bid = f"b{i}"
+            bid = str(i + 1) if plain_ids else f"b{i}"
             cell = rng.choice(cells + list(st_cell.values()))
             lat, lon = latlon(cell)
             stalls = rng.choice([0, 1, 2, 10])
@@ -100,7 +103,7 @@ def _gen_case(rng: random.Random, k: int) -> Dict[str, Any]:
         for i in range(n_v):
             cell = rng.choice(cells + list(st_cell.values()) + [b["_cell"] for b in base_rows])
             lat, lon = latlon(cell)
-            row = {"vehicle_id": f"v{i}", "lat": lat, "lon": lon, "mechatronics_id": rng.choice(mech_ids),
+            row = {"vehicle_id": (str(i + 1) if plain_ids else f"v{i}"), "lat": lat, "lon": lon, "mechatronics_id": rng.choice(mech_ids),
                    "initial_soc": repr(rng.choice([0.05, 0.3, 0.99, 1.0])), "schedule_id": "", "home_base_id": ""}
             if rng.random() < 0.45:
                 # a human driver with a home base (several may share one)
@@ -164,6 +167,13 @@ def _gen_case(rng: random.Random, k: int) -> Dict[str, Any]:
                 if got != want:
                     for pfx in ("C10", "C12"):
                         member_msgs.append(f"{pfx}/layout-membership| vehicle {vid} holds memberships {sorted(got)} after loading; the fleets file and its home base give {sorted(want)}")
+            # stations and bases: exactly the fleets the fleets file lists them in (next to private memberships)
+            for kind, coll, ids_ in (("stations", sim.stations, sorted(sim.stations.keys())), ("bases", sim.bases, sorted(base_ids_))):
+                for eid in ids_:
+                    want = {f for f, d in fl.items() if eid in d[kind]}
+                    got = {m_ for m_ in coll[eid].membership.memberships if m_ in fl}
+                    if got != want:
+                        member_msgs.append(f"C10/layout-membership| {kind[:-1]} {eid} holds the fleets {sorted(got)} after loading; the fleets file lists it in {sorted(want)}")
             # a base that is some human driver's home carries the private membership of (at least one of)
             # the vehicles homed there: it is not open to everybody
             for bid in sorted(base_ids_):
